@@ -160,7 +160,60 @@ CHECKS["C09"] = dict(
     thorough=[dict(pkg="lvl", test="TestC09", shards=16, checks=4000, timeout=2400)],
 )
 
+_E1_GEN = ("rapid draws a whole Program: Config (SkipListMaxLevel {0,1,2,4,9,12}, SkipListP {0..0.9}, MemtableByteThreshold "
+           "{1..700 or default}, ImmutableBuffer 0..4, DataBlockByteThreshold {default,1,20,60,200,4096}, L0TargetNum 1..4, "
+           "LevelRatio {1,2,3,10}), 3..10 keys (trap pool + random bytes), tower-height seed, and 10..120 ops: Update/View "
+           "closures (1..5 Get/Set/Delete, optionally failing after k calls), explicit Begin(rw|ro)/Get/Set/Delete/Commit/"
+           "Discard/re-read over up to 4(+2) simultaneously open transactions, anomaly templates (write skew, lost update, "
+           "read-only anomaly) with generated interleaving, FlusherStep(1..4)/FlusherRunToIdle (the background flusher is "
+           "held at 4 lock-free gates and advanced only by these ops, so flush/compaction timing is a generated, "
+           "replayable dimension), Reopen(cfg') (Close with flushes pending, View/Update on the closed handle, Open with "
+           "redrawn sizes and fixed level geometry), misuse calls, full-pool reads. The interpreter drives the real DB and "
+           "the MVCC+SSI reference model side by side from one goroutine (so the model is exact), values are unique tokens "
+           "naming their writer. Each check judges only the discrepancy kinds its property owns; others are counted as "
+           "foreign. distinct = SHA-256 of the program JSON. ")
+
+def _e1(prop, title, owns, nontriv, q_checks, t_checks, extra_assume=()):
+    return dict(
+        level="exploration",
+        engine="dbsm",
+        technique="model-based stateful property test (rapid): generated transaction programs with owned flusher schedule vs MVCC+SSI reference model" + (
+            "; recorded history decided by porcupine (transactions as operations)" if prop in ("C05", "C06") else ""),
+        design_ref="DESIGN.md §7 " + prop,
+        death_is_violation=True,
+        rule=_E1_GEN + "Judged here: " + owns + " Non-trivial: " + nontriv,
+        assumptions=["one goroutine issues all calls (exact model); concurrent schedules are the business of C12/C15 and the concurrent legs",
+                     "64-bit key fingerprints of the <= 10 keys of a program do not collide",
+                     "Close is called with no transaction open; after Close only View/Update are called"] + list(extra_assume),
+        level_text=title,
+        level_note="trusted: the reference model (model.go), the interpreter's bookkeeping, the gate controller (steers only; verdicts never read hook state)",
+        quick=[dict(pkg="dbsm", test="Test" + prop, shards=16, checks=q_checks, timeout=400)],
+        thorough=[dict(pkg="dbsm", test="Test" + prop, shards=16, checks=t_checks, timeout=3000),
+                  dict(pkg="dbsm", test="Test" + prop, shards=16, checks=max(20, t_checks // 5), timeout=3000, env={"VERIF_FREE": "1"}, replay_tries=30)],
+    )
+
+CHECKS["C01"] = _e1("C01", "Generated-history search against an exact model: every read in a fresh transaction must return the latest committed write, at whatever gate the flusher stands.",
+    "reads in a transaction whose snapshot is the latest commit (after every commit a fresh View reads the keys just written, every 8th commit and at the end the whole pool, again after the flusher went idle) must equal the model's latest state.",
+    "the program read a key whose newest version had left the memtable (its memtable was flushed) AND read a deleted key whose tombstone had been flushed.", 45, 1500)
+CHECKS["C02"] = _e1("C02", "Generated histories with close/reopen cycles: before/after differential plus model agreement for post-reopen writes.",
+    "the full-pool read before Close must equal the full-pool read after Open (differential, independent of the model); fresh reads of keys written after a reopen must return the new data (also after later flushes, compactions, reopens); Open/Close must not fail or panic.",
+    "a reopen on a directory that held tables AND a post-reopen overwrite of a pre-reopen key read back after it left the memtable.", 45, 1000)
+CHECKS["C05"] = _e1("C05", "Generated interleavings with long-lived readers: every Get must equal snapshot-at-Begin overlaid with own writes; the same history is re-decided by porcupine as a split history.",
+    "every Get in any live transaction (snapshot fixed at Begin, own buffer on top), re-read after every flusher step; dirty reads; the recorded history's split form (reads at Begin, writes at Commit) must be linearizable.",
+    "a transaction read, after its newer version had been flushed and a compaction had happened, a key that another transaction overwrote or deleted after its Begin.", 45, 1500)
+CHECKS["C06"] = _e1("C06", "Generated interleavings incl. anomaly templates; the history of committed + read-only transactions must have a real-time-respecting serial order (porcupine), cross-checked by the exact model.",
+    "porcupine verdict on the history (Unknown = inconclusive, counted), dirty reads.",
+    "overlapping read-write transactions with intersecting read/write sets of which at least one was refused (or would have been an anomaly).", 60, 1500)
+CHECKS["C07"] = _e1("C07", "Exact two-sided oracle for the Commit result in generated interleavings (boundaries: commit right before Begin, buffer reads, absent keys, deletes, rw transactions without writes, long histories).",
+    "Commit/Update error vs the model's prediction in both directions (refused iff a store-read key was written by a transaction that committed after the snapshot).",
+    "a predicted-and-observed conflict AND a commit that succeeds although a concurrent transaction committed other keys.", 60, 3000)
+CHECKS["C08"] = _e1("C08", "Generated abandonment (Discard, conflict, failing Update closure) and misuse, followed by flushes, compactions and restarts; token identity makes leaked writes directly visible.",
+    "any read returning a token of a transaction that never committed; misuse calls must return the documented error (any applicable one) and Get not-found; Update must return the closure's own error; View/Update after Close must return ErrDBClosed without running the closure.",
+    "an abandoned write set (discard with writes / failed closure after writes) in a program that flushed and then reopened or compacted.", 45, 1500)
+
 ENGINES = [
+    {"name": "dbsm", "path": "harness/checks/dbsm", "serves_properties": ["C01", "C02", "C05", "C06", "C07", "C08"],
+     "kind_free_text": "deterministic in-process DB state machine: generated Program interpreted against the real DB and the MVCC+SSI model, flusher held at verifhook gates, porcupine as history oracle"},
     {"name": "lvl", "path": "harness/checks/lvl", "serves_properties": ["C09", "C10", "C16"],
      "kind_free_text": "real levelManager over a scratch directory through the verif-only accessor; generated flush/compact/recover sequences, brute-force and before/after oracles, exhaustive small universe"},
     {"name": "pure", "path": "harness/checks/pure", "serves_properties": ["C11", "C13", "C16", "C17"],
